@@ -14,10 +14,13 @@ COMMON_ASSUME = [
 ]
 
 
+CPLX_ENV = {"SLUSYM_NAMEDIV": "1"}   # complex: purify divisions (q*y == x) -- helps nlsat on Smith's quotient
+
+
 def fcase(m, n, pat, colperm=0, permidx=0, sym=0, tune="t111", umode=0, flags=0, symcols=-1):
     t = T[tune] if isinstance(tune, str) else tune
     if C.structural_rank(m, n, pat) < n: flags |= 2
-    return (m, n, pat, colperm, permidx, sym) + tuple(t) + (umode, flags, symcols)
+    return (m, n, hex(pat), colperm, permidx, sym) + tuple(t) + (umode, flags, symcols)
 
 
 def reach_cases(tier):
@@ -35,35 +38,63 @@ def reach_cases(tier):
     return cs
 
 
-def factor_cases(tier):
+def factor_cases(tier, purpose="C02", prec="d"):
     cs = []
+    cplx = prec in "zc"
+    if cplx and tier == "quick":
+        # complex: path conditions over |re|+|im| and Smith's quotient are hard for nlsat when everything is symbolic, so dense shapes use one
+        # symbolic column (the rest generic concrete), fully symbolic only up to 3 stored entries
+        for pat in C.all_patterns(1, 1): cs.append(fcase(1, 1, pat, umode=0))
+        for pat in C.all_patterns(2, 2):
+            for tn in ("t111", "t122"):
+                for sc in (1, 2): cs.append(fcase(2, 2, pat, tune=tn, umode=0, symcols=sc))
+            if bin(pat).count("1") <= 3: cs.append(fcase(2, 2, pat, tune="t122", umode=2))
+        for pat in (63, 47, 31, 55): cs.append(fcase(3, 2, pat, tune="t122", umode=0, symcols=2))
+        for pat in (511, C.band(3, 1, 1), C.arrow(3)):
+            for sc in (1, 4): cs.append(fcase(3, 3, pat, tune="t122", umode=0, symcols=sc))
+        for tn in ("tn1n", "t122", "t4_1_8_2d"): cs.append(fcase(5, 5, C.dense(5, 5), tune=tn, symcols=16))
+        return list(dict.fromkeys(cs))
+    um = 0 if cplx else 1          # complex: u = 1 and u = 0.5 (a symbolic threshold adds another nonlinear factor)
     for pat in C.all_patterns(2, 2):
-        for tn in ("t111", "t212", "t122", "t1nn_f1", "t221_f1"): cs.append(fcase(2, 2, pat, tune=tn, umode=1))
+        for tn in ("t111", "t212", "t122", "t1nn_f1", "t221_f1"): cs.append(fcase(2, 2, pat, tune=tn, umode=um))
         cs.append(fcase(2, 2, pat, colperm=4, permidx=1, tune="t122", umode=2))
     for pat in C.all_patterns(3, 2): cs.append(fcase(3, 2, pat, tune="t122", umode=0))      # tall through the factor routine
-    for pat in C.all_patterns(1, 1) + [1]: cs.append(fcase(1, 1, pat, umode=1))
+    for pat in C.all_patterns(2, 1): cs.append(fcase(2, 1, pat, tune="t111", umode=0))
+    for pat in C.all_patterns(1, 1): cs.append(fcase(1, 1, pat, umode=um))
     p3 = C.all_patterns(3, 3)
+    special = (511, C.band(3, 1, 1), C.arrow(3), C.arrow(3, False))
+    rank3 = [p for p in p3 if C.structural_rank(3, 3, p) == 3]
     if tier == "quick":
-        sel = [p for p in p3 if bin(p).count("1") <= 5 or p in (511, C.band(3, 1, 1), C.arrow(3))]
-        for pat in sel: cs.append(fcase(3, 3, pat, tune="t122"))
-        for pat in C.full_diag_plus(3, 6): cs.append(fcase(3, 3, pat, tune="t212", umode=0))
-        for pat in (511, C.band(3, 1, 1), C.arrow(3), C.arrow(3, False)):
-            for tn in ("t111", "tn1n", "t1nn_f1", "t313", "t133"): cs.append(fcase(3, 3, pat, tune=tn, umode=1))
-            for cp in (1, 2, 3): cs.append(fcase(3, 3, pat, colperm=cp, tune="t122"))
-            for k in range(6): cs.append(fcase(3, 3, pat, colperm=4, permidx=k, tune="t212"))
-            cs.append(fcase(3, 3, pat, sym=1, colperm=2, tune="t122", umode=2))
+        if purpose == "C04":
+            for pat in p3: cs.append(fcase(3, 3, pat, tune="t122"))
+            for pat in special: cs.append(fcase(3, 3, pat, tune="t212", umode=um))
+        elif purpose == "C03":
+            for pat in rank3:
+                if bin(pat).count("1") <= 5: cs.append(fcase(3, 3, pat, tune="t212"))
+            for pat in special:
+                for tn in T: cs.append(fcase(3, 3, pat, tune=tn))
+                for cp in (1, 2, 3): cs.append(fcase(3, 3, pat, colperm=cp, tune="t122"))
+        else:
+            for pat in rank3:
+                if bin(pat).count("1") <= 6: cs.append(fcase(3, 3, pat, tune="t122"))
+            for pat in C.full_diag_plus(3, 3): cs.append(fcase(3, 3, pat, tune="t212", umode=um))
+            for pat in special:
+                for tn in ("t111", "tn1n", "t1nn_f1", "t313", "t133"): cs.append(fcase(3, 3, pat, tune=tn, umode=um))
+                for cp in (1, 2, 3): cs.append(fcase(3, 3, pat, colperm=cp, tune="t122"))
+                for k in range(6): cs.append(fcase(3, 3, pat, colperm=4, permidx=k, tune="t212"))
+                cs.append(fcase(3, 3, pat, sym=1, colperm=2, tune="t122", umode=2))
         cs += reach_cases(tier)
     else:
         for pat in p3:
             for tn in T: cs.append(fcase(3, 3, pat, tune=tn))
         for pat in C.full_diag_plus(3, 6):
-            for k in range(6):
-                for cp in (4,): cs.append(fcase(3, 3, pat, colperm=cp, permidx=k, tune="t122", umode=1))
-            for cp in (1, 2, 3): cs.append(fcase(3, 3, pat, colperm=cp, tune="t212", umode=1))
+            for k in range(6): cs.append(fcase(3, 3, pat, colperm=4, permidx=k, tune="t122", umode=um))
+            for cp in (1, 2, 3): cs.append(fcase(3, 3, pat, colperm=cp, tune="t212", umode=um))
             cs.append(fcase(3, 3, pat, sym=1, colperm=2, tune="t122", umode=2))
-        for pat in C.full_diag_plus(4, 3) + [C.dense(4, 4), C.arrow(4), C.band(4, 1, 1), C.band(4, 2, 1)]:
-            for tn in ("t111", "t122", "tn1n", "t1nn_f1"): cs.append(fcase(4, 4, pat, tune=tn))
-        for pat in C.all_patterns(4, 2)[::3]: cs.append(fcase(4, 2, pat, tune="t122"))
+        if not cplx:
+            for pat in C.full_diag_plus(4, 3) + [C.dense(4, 4), C.arrow(4), C.band(4, 1, 1), C.band(4, 2, 1)]:
+                for tn in ("t111", "t122", "tn1n", "t1nn_f1"): cs.append(fcase(4, 4, pat, tune=tn))
+            for pat in C.all_patterns(4, 2)[::3]: cs.append(fcase(4, 2, pat, tune="t122"))
         cs += reach_cases(tier)
     return list(dict.fromkeys(cs))
 
@@ -75,33 +106,113 @@ def precs(tier, names="dz"):
     return list(names) if tier == "quick" else list("dszc")
 
 
-def check_factor(chk, prefixes, tier, crash=False):
-    cs = factor_cases(tier)
+def check_factor(chk, prefixes, tier, purpose, crash=False):
     for prec in precs(tier):
-        sub = cs if prec == "d" else [c for c in cs if c[1] <= (2 if tier == "quick" else 3) and c[0] <= 3 and c[14] == -1] + [c for c in cs if c[14] != -1 and c[1] <= 5][:6]
-        run_phase(chk, "factor/" + prec, H + "h_factor.c", sub, prefixes, prec=prec, budget_s=240 if tier == "quick" else 2400, bounds=FACTOR_BOUNDS, crash_is_violation=crash,
-                  qtimeout_ms=10000 if tier == "quick" else 60000)
+        cs = factor_cases(tier, purpose, prec)
+        run_phase(chk, "factor/" + prec, H + "h_factor.c", cs, prefixes, prec=prec, budget_s=200 if tier == "quick" else 2400, bounds=FACTOR_BOUNDS, crash_is_violation=crash,
+                  qtimeout_ms=(3000 if prec in "zc" else 10000) if tier == "quick" else 60000, env=CPLX_ENV if prec in "zc" else None)
     if tier != "quick":
+        cs = factor_cases(tier, purpose, "d")
         run_phase(chk, "factor/d/vendor-blas", H + "h_factor.c", [c for c in cs if c[1] >= 3][::2], prefixes, prec="d", vendor=True, budget_s=1200, bounds=FACTOR_BOUNDS + "; USE_VENDOR_BLAS code path with reference BLAS", qtimeout_ms=60000)
         run_phase(chk, "factor/d/index64", H + "h_factor.c", [c for c in cs if c[1] >= 3][::4], prefixes, prec="d", idx64=True, budget_s=1200, bounds=FACTOR_BOUNDS + "; 64-bit int_t", qtimeout_ms=60000)
 
 
 def check_C02(chk, tier):
     chk.assumptions += COMMON_ASSUME
-    check_factor(chk, ["C02."], tier)
+    check_factor(chk, ["C02."], tier, "C02")
 
 
 def check_C03(chk, tier):
     chk.assumptions += COMMON_ASSUME + ["structure clauses are integer facts evaluated on each symbolic path; the solver decides which pivot sequences (hence structures) are feasible"]
-    check_factor(chk, ["C03."], tier)
+    check_factor(chk, ["C03."], tier, "C03")
 
 
 def check_C04(chk, tier):
     chk.assumptions += COMMON_ASSUME
-    check_factor(chk, ["C04."], tier)
+    check_factor(chk, ["C04."], tier, "C04")
 
 
-REGISTRY = {"C02": check_C02, "C03": check_C03, "C04": check_C04}
+# ------------------------------------------------------------------------------------------------ C01 simple driver
+def gcase(n, pat, storage=0, colperm=0, permidx=0, sym=0, tune="t111", umode=0, flags=0, symcols=-1, nrhs=1, ldbx=0):
+    t = T[tune] if isinstance(tune, str) else tune
+    if C.structural_rank(n, n, pat) < n: flags |= 2
+    return (n, hex(pat), storage, colperm, permidx, sym) + tuple(t) + (umode, flags, symcols, nrhs, ldbx)
+
+
+def gssv_cases(tier, prec="d", purpose="C01"):
+    cs = []
+    cplx = prec in "zc"
+    special = (511, C.band(3, 1, 1), C.arrow(3), C.arrow(3, False))
+    for pat in C.all_patterns(1, 1):
+        for nr in (0, 1, 2): cs.append(gcase(1, pat, nrhs=nr, ldbx=nr % 2, umode=0 if cplx else 1))
+    if cplx and tier == "quick":
+        for pat in C.all_patterns(2, 2):
+            for st in (0, 1):
+                for sc in (1, 2, 0): cs.append(gcase(2, pat, storage=st, tune="t122", symcols=sc))
+            if bin(pat).count("1") <= 3: cs.append(gcase(2, pat, tune="t111", nrhs=2, ldbx=1))
+        for pat in special[:2]:
+            for st in (0, 1): cs.append(gcase(3, pat, storage=st, tune="t122", symcols=4)); cs.append(gcase(3, pat, storage=st, tune="t212", symcols=0, nrhs=2, ldbx=1))
+        for tn in ("tn1n", "t122", "t4_1_8_2d"): cs.append(gcase(5, C.dense(5, 5), tune=tn, symcols=0, nrhs=2)); cs.append(gcase(5, C.dense(5, 5), storage=1, tune=tn, symcols=16))
+        return list(dict.fromkeys(cs))
+    for pat in C.all_patterns(2, 2):
+        for st in (0, 1):
+            for tn in ("t111", "t122"): cs.append(gcase(2, pat, storage=st, tune=tn, umode=0 if cplx else 1))
+    cs.append(gcase(2, 15, nrhs=2, ldbx=1, tune="t212", umode=2)); cs.append(gcase(2, 15, storage=1, nrhs=2, ldbx=2, tune="t122")); cs.append(gcase(2, 15, nrhs=0))
+    p3 = C.all_patterns(3, 3)
+    if tier == "quick":
+        if purpose == "C04":
+            for pat in p3: cs.append(gcase(3, pat, tune="t122"))
+        else:
+            for pat in p3:
+                if C.structural_rank(3, 3, pat) == 3 and bin(pat).count("1") <= 5: cs.append(gcase(3, pat, tune="t122"))
+            for pat in special:
+                for st in (0, 1):
+                    for tn in ("t111", "t212", "tn1n", "t1nn_f1"): cs.append(gcase(3, pat, storage=st, tune=tn))
+                for cp in (1, 2, 3): cs.append(gcase(3, pat, colperm=cp, tune="t122", storage=cp % 2))
+                for k in (1, 3, 4): cs.append(gcase(3, pat, colperm=4, permidx=k, tune="t212"))
+                cs.append(gcase(3, pat, sym=1, colperm=2, tune="t122", umode=2))
+            cs.append(gcase(3, 511, nrhs=2, ldbx=1, tune="t122")); cs.append(gcase(3, 511, nrhs=3, ldbx=0, tune="tn1n", symcols=4))
+    else:
+        for pat in p3:
+            for st in (0, 1): cs.append(gcase(3, pat, storage=st, tune="t122" if st else "t212"))
+        for pat in C.full_diag_plus(3, 6):
+            for tn in T: cs.append(gcase(3, pat, tune=tn, nrhs=2, ldbx=1))
+            for cp in (1, 2, 3): cs.append(gcase(3, pat, colperm=cp, tune="t122", storage=cp % 2, umode=0 if cplx else 1))
+            for k in range(6): cs.append(gcase(3, pat, colperm=4, permidx=k, tune="t212"))
+        if not cplx:
+            for pat in C.full_diag_plus(4, 2) + [C.dense(4, 4), C.arrow(4), C.band(4, 1, 1)]:
+                for tn in ("t122", "tn1n"): cs.append(gcase(4, pat, tune=tn, storage=(pat >> 3) & 1))
+    # kernel reach: concrete A with symbolic right-hand sides (solve kernels), and symbolic trailing columns (factor kernels)
+    shapes = [(5, C.dense(5, 5)), (6, C.band(6, 2, 2)), (7, C.dense(7, 7)), (10, C.dense(10, 10)), (10, C.band(10, 4, 1))] if tier == "quick" else \
+             [(4, C.dense(4, 4)), (5, C.dense(5, 5)), (6, C.band(6, 2, 2)), (5, C.arrow(5)), (7, C.dense(7, 7)), (9, C.band(9, 1, 1)), (9, C.arrow(9)), (10, C.dense(10, 10)), (10, C.band(10, 4, 1)), (12, C.dense(12, 12))]
+    for n_, pat in shapes:
+        for tn in ("tn1n", "t122", "t313", "t1_8_8", "t4_1_8_2d", "t2_4_4"):
+            for st in (0, 1):
+                cs.append(gcase(n_, pat, storage=st, tune=tn, symcols=0, nrhs=2, ldbx=st))
+                if tier != "quick" or tn in ("tn1n", "t1_8_8"): cs.append(gcase(n_, pat, storage=st, tune=tn, symcols=1 << (n_ - 1), nrhs=1))
+    return list(dict.fromkeys(cs))
+
+
+GSSV_BOUNDS = "n <= 3 fully symbolic (patterns per tier), reach cases n <= 10 (12 thorough) with concrete A / symbolic trailing columns and symbolic B; nrhs <= 3, ldb <= n+2; NC and NR storage; orderings NATURAL/MMD_ATA/MMD_AT_PLUS_A/COLAMD/MY_PERMC"
+
+
+def check_gssv(chk, prefixes, tier, purpose):
+    for prec in precs(tier):
+        cs = gssv_cases(tier, prec, purpose)
+        run_phase(chk, "gssv/" + prec, H + "h_gssv.c", cs, prefixes, prec=prec, budget_s=200 if tier == "quick" else 2400, bounds=GSSV_BOUNDS,
+                  qtimeout_ms=(3000 if prec in "zc" else 10000) if tier == "quick" else 60000, env=CPLX_ENV if prec in "zc" else None)
+    if tier != "quick":
+        cs = gssv_cases(tier, "d", purpose)
+        run_phase(chk, "gssv/d/vendor-blas", H + "h_gssv.c", [c for c in cs if c[0] >= 3][::2], prefixes, prec="d", vendor=True, budget_s=1200, bounds=GSSV_BOUNDS + "; USE_VENDOR_BLAS path, reference BLAS", qtimeout_ms=60000)
+        run_phase(chk, "gssv/d/index64", H + "h_gssv.c", [c for c in cs if c[0] >= 3][::4], prefixes, prec="d", idx64=True, budget_s=1200, bounds=GSSV_BOUNDS + "; 64-bit int_t", qtimeout_ms=60000)
+
+
+def check_C01(chk, tier):
+    chk.assumptions += COMMON_ASSUME
+    check_gssv(chk, ["C01."], tier, "C01")
+
+
+REGISTRY = {"C01": check_C01, "C02": check_C02, "C03": check_C03, "C04": check_C04}
 
 
 def run(pid, tier):
